@@ -177,7 +177,7 @@ func hashStrings(parts ...string) uint64 {
 func scheduleSignature(r *Run) string {
 	s := ""
 	for _, a := range r.Results {
-		s += fmt.Sprintf("|%v/%d/%d/%v/%v/%v/%d", a.Causes, a.Steps, len(a.Calls), a.ReaderHolding, a.HandlerParked, a.MidPacket, a.PacketsDeliv)
+		s += fmt.Sprintf("|%v/%d/%v/%v/%v/%d", a.Causes, len(a.Calls), a.ReaderHolding, a.HandlerParked, a.MidPacket, a.PacketsDeliv)
 		for _, c := range a.Calls {
 			s += fmt.Sprintf(",%d:%d", c.Seq, c.PacketsDelivered)
 		}
@@ -252,6 +252,12 @@ func RunCase(t *testing.T, spec CaseSpec) *CaseResult {
 	if r.HarnessErr != "" {
 		res.Harness = r.HarnessErr
 		return res
+	}
+	for _, a := range r.Results {
+		if a.StepCapped {
+			res.Stats.probe("inconclusive:step-cap")
+			return res
+		}
 	}
 	add := func(vs []Violation) { res.Violations = append(res.Violations, vs...) }
 	first := r.Results[0]
